@@ -302,6 +302,14 @@ func finish(cfg *Config, rep *Report) int {
 	for k, v := range rep.Extra {
 		cov[k] = v
 	}
+	if rep.DistinctNontrivial == 0 {
+		// engines that do not maintain their own counter: the distinct observed
+		// outcomes are the measured number of distinct non-trivial cases
+		rep.DistinctNontrivial = int64(len(rep.outcomes))
+	}
+	if rep.Evaluations == 0 {
+		rep.Evaluations = rep.Transitions
+	}
 	cov["evaluations"] = rep.Evaluations
 	cov["distinct_nontrivial"] = rep.DistinctNontrivial
 	cov["rule"] = rep.Rule
